@@ -206,7 +206,8 @@ def _classify(code, lit, cfg):
     import re
     if code == 2 and re.fullmatch(r"\{0*[1-9][0-9]*\s*(:[?xXobeEp]?)?\s*\}", lit) and (cfg & 3) == 1:
         return "index-beyond-the-only-argument"
-    if code == 1 and re.fullmatch(r"\{[^{}:]*:\.[?xXobeEp]?\s*\}", lit):
+    from . import tcall
+    if code == 1 and tcall.has_dot_without_precision(lit):
         # the open C03 finding seen from here: std reads `{:.}` as "precision implied", the parser returns None, nothing is delegated
         return "dot-without-precision"
     return "other"
